@@ -18,11 +18,13 @@ EXPLANATION = (
     "given order; S4 searchers that promise no repeats record what they return (exclusion list updated after every non-None "
     "result when duplicates are not allowed), random sampling returns only configurations not in the exclusion list, and the "
     "BO candidate picker inserts only non-duplicates, falling back to the un-optimised candidate; S5 pending, failed and "
-    "observed configurations are all excluded; S6 grid search advances its index exactly once per candidate considered and "
+    "observed configurations are all excluded, failed and pending ones are never filtered out again (monotone union), and a "
+    "trial leaves the pending list only into observed or failed (typestate: every drop_pending_evaluation is followed on every "
+    "path by a label or a failure mark); S6 grid search advances its index exactly once per candidate considered and "
     "resets it only when duplicates are allowed; S7 PBT's exploration writes only sampled or clipped-and-cast values. "
     "NOT decided: that model-based candidates decode into the domain (C07 numeric clauses).")
 
-FLOOR = {"S1": 4, "S2": 5, "S3": 4, "S4": 5, "S5": 1, "S6": 3, "S7": 2}
+FLOOR = {"S1": 4, "S2": 5, "S3": 4, "S4": 5, "S5": 5, "S6": 3, "S7": 2}
 
 
 def s1(ctx, rep):
@@ -280,6 +282,59 @@ def s5(ctx, rep):
     ok = len(rets) == 1 and all(flows_into(f, rets[0].value, lambda y, n=n: isinstance(y, ast.Attribute) and U(y) == n) for n in need)
     rep.put(ok, "S5", "agreement", "TuningJobState.all_configurations unions pending, failed and observed trials", f, None, str(need),
             "one of pending / failed / observed configurations is not excluded from new suggestions")
+    # the union is monotone in the pending and failed trials: nothing they flow into is filtered or subtracted from
+    # (the optional filter applies to the observed trials alone)
+    must_stay = ["self.pending_evaluations", "self.failed_trials"]
+
+    def protected(e):
+        return [n for n in must_stay if flows_into(f, e, lambda y, n=n: isinstance(y, ast.Attribute) and U(y) == n)]
+    bad = []
+    for x in walk_shallow(f.node):
+        if isinstance(x, ast.Call) and isinstance(x.func, ast.Attribute) and x.func.attr in (
+                "difference_update", "difference", "discard", "remove", "pop", "intersection_update", "intersection",
+                "symmetric_difference_update", "clear") and protected(x.func.value):
+            bad.append((x, f"`{U(x)[:60]}` removes entries from a collection holding {protected(x.func.value)}"))
+        if isinstance(x, ast.BinOp) and isinstance(x.op, (ast.Sub, ast.BitAnd, ast.BitXor)) and protected(x.left):
+            bad.append((x, f"`{U(x)[:60]}` subtracts from a collection holding {protected(x.left)}"))
+        if isinstance(x, ast.AugAssign) and isinstance(x.op, (ast.Sub, ast.BitAnd, ast.BitXor)) and protected(x.target):
+            bad.append((x, f"`{U(x)[:60]}` subtracts from a collection holding {protected(x.target)}"))
+        if isinstance(x, ast.comprehension) and x.ifs and protected(x.iter) and not isinstance(getattr(x, "_parent", None), ast.DictComp):
+            # a filtering comprehension over pending/failed ids (x.trial_id for x in ... is a map, not a filter)
+            bad.append((x.iter, f"comprehension over {protected(x.iter)} with a condition `{U(x.ifs[0])[:50]}`"))
+        if isinstance(x, ast.Call) and fn_name(x) == "filter" and len(x.args) == 2 and protected(x.args[1]):
+            bad.append((x, f"filter(...) over {protected(x.args[1])}"))
+    rep.put(not bad, "S5", "taint", "TuningJobState.all_configurations: pending and failed trials are never filtered or subtracted", f,
+            bad[0][0] if bad else None, "only the observed trials pass through filter_observed_data",
+            (bad[0][1] if bad else "") + ": a failed or pending trial can drop out of the exclusion list and its configuration is suggested again")
+
+
+def s5b(ctx, rep):
+    """typestate of a suggested trial in the model-based searchers: pending -> observed | failed.  A trial that leaves the
+    pending list without entering one of the other two drops out of the exclusion list (pending + failed + observed)."""
+    P = ctx.P
+    RECORD = ("mark_trial_failed", "metrics_for_trial", "label_trial")
+    n = 0
+    for f in sorted(P.functions.values(), key=lambda f: f.qualname):
+        if f.name == "drop_pending_evaluation":
+            continue
+        calls = [x for x in walk_shallow(f.node) if isinstance(x, ast.Call) and fn_name(x) == "drop_pending_evaluation"]
+        if not calls:
+            continue
+        cfg = cfg_of(f)
+        rec = {nd.id for nd in cfg.nodes for x in cfg.node_walk(nd.id) if isinstance(x, ast.Call) and fn_name(x) in RECORD}
+        for c in calls:
+            nid = [nd.id for nd in cfg.nodes if any(x is c for x in cfg.node_walk(nd.id))]
+            if not nid:
+                continue
+            n += 1
+            p = cfg.path([s_ for s_, l in cfg.succ[nid[0]]], cfg.exit, deleted=rec, skip_labels=("exc",)) if nid[0] not in rec else None
+            rep.put(p is None, "S5", "typestate", f"{f.short}: a trial dropped from pending is recorded as observed or failed", f, c,
+                    "followed on every path by " + " / ".join(RECORD),
+                    "the pending evaluation is dropped and the function can return without recording the trial as observed "
+                    "(label) or failed: the trial is then in none of pending / failed / observed, its configuration leaves the "
+                    "exclusion list and is suggested again", witness=cfg.describe_path(p) if p else None)
+    if n < 3:
+        raise AnchorError(f"C06-S5: only {n} drop_pending_evaluation call sites found (3 confirmed: label_trial x2, evaluation_failed)")
 
 
 def s6(ctx, rep):
@@ -352,5 +407,6 @@ def run(ctx, rep, tier="quick"):
     s3(ctx, rep)
     s4(ctx, rep)
     s5(ctx, rep)
+    s5b(ctx, rep)
     s6(ctx, rep)
     s7(ctx, rep)
